@@ -231,6 +231,34 @@ def r6(ctx):
                       "config file) is silently turned into something else" % (f.name, norm(rets[0].ast.value) if rets and rets[0].ast.value is not None else None, f.name),
                       "returns the stored value when set")
     ctx.floor("C16.R6", "Config properties that test their setting for None", n, 2)
+    # evaluated: a property with an *environment fall-back* (SENDFILE) never lets the fall-back override a value a source has
+    # stored -- whichever value that is
+    m = 0
+    for f in cls.methods.values():
+        if not any(norm(d) == "property" for d in f.node.decorator_list):
+            continue
+        f = ctx.fn(f)
+        if not any(isinstance(x, ast.Attribute) and norm(x) == "os.environ" for x in walk_own(f.node)):
+            continue
+        evars = sorted(set(const(x, NO) for x in walk_own(f.node) if isinstance(const(x, NO), str) and const(x, NO).isupper()))
+        sets_ = [x for x in walk_own(f.node) if isinstance(x, ast.Call) and norm(x).startswith("self.settings[") and norm(x).endswith(".get()")]
+        if not evars or not sets_:
+            continue
+
+        def atom_of(e):
+            if isinstance(e, ast.Call) and norm(e).startswith("self.settings[") and norm(e).endswith(".get()"):
+                return "STORED"
+            return None
+        for stored in (True, False):
+            for ev_ in ("0", "no", "1", "yes", None):
+                environ = {} if ev_ is None else {v: ev_ for v in evars}
+                outs = Explorer(f, atom_of=atom_of).run(f.cfg.entry, {"STORED": stored, "os.environ": environ})
+                got = set(o.detail if o.kind == "return" else o.kind for o in outs)
+                m += 1
+                ctx.check("C16.R6", got == {stored}, key(f, "stored-value-wins|%s|%s" % (stored, ev_)), site(f, text="setting=%r, %s=%r" % (stored, "/".join(evars), ev_)),
+                          "Config.%s with the setting stored as %r (a source said so) and %s=%r in the environment yields %s: the environment fall-back overrides what a more authoritative "
+                          "source said" % (f.name, stored, "/".join(evars), ev_, sorted(map(str, got))), "the stored value")
+    ctx.floor("C16.R6", "stored-value rows of properties with an environment fall-back", m, 10)
 
 
 def settings(repo):
